@@ -84,6 +84,7 @@ pub fn replay(id: &str, case: &Value) -> i32 {
 pub fn worker(id: &str) -> i32 {
     let args: Vec<String> = std::env::args().skip(3).collect();
     match id {
+        "C10" => c10::worker(&args),
         "C12" => c12::worker(&args),
         "C13" => c13::worker(&args),
         _ => {
